@@ -194,6 +194,8 @@ class Gen:
         if f["missfn"]: a.append("missing_field_error = %s" % f["missfn"])
         if src["error"]: a.append("error = %s" % src["error"])
         if f.get("needs"): a.append("needs_predicate")
+        if src.get("split"):
+            return "".join("#[deserr(%s)] " % x for x in a)
         return ("#[deserr(%s)] " % ", ".join(a)) if a else ""
 
     def emit_fns(self, name):
@@ -314,7 +316,7 @@ class Gen:
             it = self.rust_ty[info["kids"][0]]
             if info["cfrom"] == "from": cattrs.append("from(%s%s) = %s" % ("&" if info["cref"] else "", it, info["cfn"]))
             else: cattrs.append("try_from(%s%s) = %s -> FnErr" % ("&" if info["cref"] else "", it, info["cfn"]))
-        out = self.emit_fns(name) + ["#[derive(deserr::Deserr, Debug)]"]
+        out = self.emit_fns(name) + ["#[derive(deserr::Deserr, Debug%s)]" % (", Clone, PartialEq, Eq, Hash, PartialOrd, Ord" if d.get("setelem") else "")]
         if cattrs: out.append("#[deserr(%s)]" % ", ".join(cattrs))
         out.append("#[allow(non_snake_case, non_camel_case_types, dead_code)]")
         if d["kind"] == "struct" and info["cfn"]:
@@ -347,7 +349,7 @@ class Gen:
                 va = []
                 if vs["rename"] is not None: va.append('rename = "%s"' % vs["rename"])
                 if vs["rename_all"]: va.append("rename_all = %s" % vs["rename_all"])
-                pre = ("    #[deserr(%s)]\n" % ", ".join(va)) if va else ""
+                pre = ("".join("    #[deserr(%s)]\n" % x for x in va) if vs.get("split") else "    #[deserr(%s)]\n" % ", ".join(va)) if va else ""
                 if vs["fields"] is None:
                     out.append("%s    %s," % (pre, vs["ident"]))
                 else:
